@@ -179,6 +179,14 @@ Fixpoint spec_cells (lo n : nat) (swaps : list (nat * nat * nat)) : list str :=
 Lemma upd_app : forall {A} (p : list A) x y rest, upd (length p) x (p ++ y :: rest) = p ++ x :: rest.
 Proof. intros A. induction p as [|z p IH]; intros x y rest; [reflexivity|]. cbn [length app upd]. rewrite IH. reflexivity. Qed.
 
+Lemma upd3 : forall (P : list str) a rest, length P = a ->
+  upd (S (S a)) s_plus (upd (S a) s_gap (upd a s_plus (P ++ s_dot :: s_dot :: s_dot :: rest)))
+  = P ++ s_plus :: s_gap :: s_plus :: rest.
+Proof.
+  intros P a rest L. subst a. induction P as [|x P IH]; [reflexivity|].
+  cbn [length app upd]. f_equal. exact IH.
+Qed.
+
 Lemma swap_fold : forall swaps lo n (prefix : list str), length prefix = lo -> swaps_okb lo n swaps = true ->
   fold_left (fun tmp s => let '(a, b, c) := s in upd c s_plus (upd b s_gap (upd a s_plus tmp)))
             swaps (prefix ++ repeat s_dot (n - lo))
@@ -194,16 +202,8 @@ Proof.
   set (P := prefix ++ repeat s_dot (a - lo)).
   assert (LP : length P = a) by (unfold P; rewrite app_length, repeat_length; lia).
   rewrite app_assoc. fold P.
-  rewrite <- LP at 1. rewrite upd_app.
-  replace (P ++ s_plus :: s_dot :: s_dot :: repeat s_dot (n - S (S (S a))))
-    with ((P ++ [s_plus]) ++ s_dot :: s_dot :: repeat s_dot (n - S (S (S a)))) by (rewrite <- app_assoc; reflexivity).
-  replace (S a) with (length (P ++ [s_plus])) at 1 by (rewrite app_length; cbn [length]; lia).
-  rewrite upd_app.
-  replace ((P ++ [s_plus]) ++ s_gap :: s_dot :: repeat s_dot (n - S (S (S a))))
-    with ((P ++ [s_plus; s_gap]) ++ s_dot :: repeat s_dot (n - S (S (S a)))) by (rewrite <- !app_assoc; reflexivity).
-  replace (S (S a)) with (length (P ++ [s_plus; s_gap])) at 1 by (rewrite app_length; cbn [length]; lia).
-  rewrite upd_app.
-  replace ((P ++ [s_plus; s_gap]) ++ s_plus :: repeat s_dot (n - S (S (S a))))
+  rewrite (upd3 P a _ LP).
+  replace (P ++ s_plus :: s_gap :: s_plus :: repeat s_dot (n - S (S (S a))))
     with ((P ++ [s_plus; s_gap; s_plus]) ++ repeat s_dot (n - S (S (S a)))) by (rewrite <- !app_assoc; reflexivity).
   rewrite IH; [|rewrite app_length; cbn [length]; lia|exact K].
   unfold P. rewrite <- !app_assoc. reflexivity.
@@ -238,3 +238,287 @@ Qed.
 Theorem swaps_roundtrip : forall n swaps, swaps_okb 0 n swaps = true ->
   parse_swaps 0 (map norm (swap_cells n swaps)) = Some swaps.
 Proof. intros n swaps H. rewrite swap_cells_spec by exact H. apply parse_spec, H. Qed.
+
+(* ------------------------------------------------------------------ *)
+(* annotation lines and rows *)
+Lemma cells_norm : forall l, msa_cells l = map norm (split_on 9 l).
+Proof. reflexivity. Qed.
+
+Lemma ann_cells : forall w name cells,
+  strippedb name = true -> last name 0 <> 46 -> ~ In 9 name -> cells <> [] -> Forall (fun c => ~ In 9 c) cells ->
+  msa_cells (ann_line w name cells) = s_zero :: name :: map norm cells.
+Proof.
+  intros w name cells S L T NE F. rewrite cells_norm. unfold ann_line.
+  rewrite split_line3; [|intros [E|[]]; discriminate E|apply ljust_notab, T|exact NE|exact F].
+  cbn [map]. rewrite norm_ljust by (try exact S; right; exact L). reflexivity.
+Qed.
+
+Lemma list2msa_columnid : forall vals rest a, list2msa ((s_zero :: s_COLUMNID :: vals) :: rest) a = list2msa rest a.
+Proof. reflexivity. Qed.
+Lemma list2msa_local : forall vals rest a,
+  list2msa ((s_zero :: s_LOCAL :: vals) :: rest) a
+  = list2msa rest (mk_msa_read (r_ids a) (r_taxa a) (r_alm a) (r_seqs a) (stars_from 0 vals) (r_swaps a) (r_cons a)).
+Proof. reflexivity. Qed.
+Lemma list2msa_crossed : forall vals rest a,
+  list2msa ((s_zero :: s_CROSSED :: vals) :: rest) a
+  = match parse_swaps 0 vals with
+    | Some sw => list2msa rest (mk_msa_read (r_ids a) (r_taxa a) (r_alm a) (r_seqs a) (r_local a) sw (r_cons a))
+    | None => Err
+    end.
+Proof. reflexivity. Qed.
+
+Definition taxon_ok (t : str) : Prop := clean_strb t = true /\ last t 0 <> 46.
+Lemma taxon_okb_ok : forall t, taxon_okb t = true -> taxon_ok t.
+Proof.
+  intros t H. unfold taxon_okb in H. apply andb_true_iff in H. destruct H as [H1 H2].
+  split; [exact H1|]. apply negb_true_iff in H2. lia.
+Qed.
+
+Lemma seg_notab : forall s, seg_ok s -> ~ In 9 s.
+Proof. intros s [[_ N] _]. apply nospace_not_in; [exact N|reflexivity]. Qed.
+
+Lemma row_cells : forall w id t row, taxon_ok t -> row <> [] -> Forall seg_ok row ->
+  msa_cells (msa_row_line w id t row) = show_int id :: t :: row.
+Proof.
+  intros w id t row [C L] NE F. rewrite cells_norm. unfold msa_row_line.
+  destruct (clean_strb_clean t C) as [[T9 [_ TS]] _].
+  rewrite split_line3.
+  - cbn [map]. rewrite norm_show_int, norm_ljust by (try exact TS; right; exact L). f_equal. f_equal.
+    rewrite <- (map_id row) at 2. apply map_ext_in. intros s I. rewrite Forall_forall in F. apply norm_seg, F, I.
+  - apply nospace_not_in; [apply show_int_nospace|reflexivity].
+  - apply ljust_notab, T9.
+  - exact NE.
+  - eapply Forall_impl; [|exact F]. apply seg_notab.
+Qed.
+
+Lemma int_not_kw : forall id, id <> 0 -> mem_str (show_int id) kw_list = false.
+Proof.
+  intros id NZ. destruct (mem_str (show_int id) kw_list) eqn:E; [|reflexivity].
+  apply mem_str_In in E. unfold kw_list in E. cbn [In] in E.
+  assert (forall c r, show_int id = c :: r -> c = 45 \/ is_digit c = true) as HC.
+  { intros c r Eq. apply (show_int_chars id). rewrite Eq. left. reflexivity. }
+  destruct E as [E|[E|[E|[E|[E|[E|[]]]]]]].
+  - exfalso. apply NZ. pose proof (parse_show_int id) as P. rewrite <- E in P. vm_compute in P. congruence.
+  - symmetry in E. destruct (HC _ _ E) as [X|X]; discriminate X.
+  - symmetry in E. destruct (HC _ _ E) as [X|X]; discriminate X.
+  - symmetry in E. destruct (HC _ _ E) as [X|X]; discriminate X.
+  - symmetry in E. destruct (HC _ _ E) as [X|X]; discriminate X.
+  - symmetry in E. destruct (HC _ _ E) as [X|X]; discriminate X.
+Qed.
+
+Definition row_ok (p : Z * str * list str) : Prop :=
+  fst (fst p) <> 0 /\ taxon_ok (snd (fst p)) /\ snd p <> [] /\ Forall seg_ok (snd p).
+
+Lemma rows_fold : forall w rows a, Forall row_ok rows ->
+  list2msa (map (fun p => msa_cells (msa_row_of w p)) rows) a
+  = Ok (mk_msa_read (r_ids a ++ map (fun p => fst (fst p)) rows) (r_taxa a ++ map (fun p => snd (fst p)) rows)
+                    (r_alm a ++ map (fun p => snd p) rows) (r_seqs a ++ map (fun p => degap (snd p)) rows)
+                    (r_local a) (r_swaps a) (r_cons a)).
+Proof.
+  intros w. induction rows as [|[[id t] row] rest IH]; intros a F.
+  - cbn [map list2msa]. rewrite !app_nil_r. destruct a; reflexivity.
+  - inversion F as [|? ? [NZ [TO [NE FS]]] Fr]; subst. cbn [fst snd] in *.
+    cbn [map]. unfold msa_row_of at 1. cbn [fst snd]. rewrite row_cells by assumption.
+    cbn [list2msa]. rewrite int_not_kw by exact NZ. rewrite parse_show_int.
+    rewrite IH by exact Fr. cbn [r_ids r_taxa r_alm r_seqs r_local r_swaps r_cons].
+    destruct TO as [_ TL]. rewrite rstrip_keep by (right; exact TL).
+    rewrite <- !app_assoc. reflexivity.
+Qed.
+
+(* ------------------------------------------------------------------ *)
+(* zip3 *)
+Lemma zip3_length : forall {A B C} (a : list A) (b : list B) (c : list C),
+  length a = length c -> length b = length c -> length (zip3 a b c) = length c.
+Proof.
+  intros A B C. induction a as [|x a IH]; intros b c La Lb; destruct b as [|y b]; destruct c as [|z c];
+    cbn [length] in *; try discriminate; [reflexivity|]. cbn [zip3 length]. rewrite IH by lia. reflexivity.
+Qed.
+Lemma zip3_unzip : forall {A B C} (a : list A) (b : list B) (c : list C),
+  length a = length c -> length b = length c ->
+  map (fun p => fst (fst p)) (zip3 a b c) = a /\ map (fun p => snd (fst p)) (zip3 a b c) = b
+  /\ map (fun p => snd p) (zip3 a b c) = c.
+Proof.
+  intros A B C. induction a as [|x a IH]; intros b c La Lb; destruct b as [|y b]; destruct c as [|z c];
+    cbn [length] in *; try discriminate; [repeat split|].
+  destruct (IH b c ltac:(lia) ltac:(lia)) as [E1 [E2 E3]]. cbn [zip3 map fst snd]. rewrite E1, E2, E3. repeat split.
+Qed.
+Lemma zip3_in : forall {A B C} (a : list A) (b : list B) (c : list C) x y z,
+  In (x, y, z) (zip3 a b c) -> In x a /\ In y b /\ In z c.
+Proof.
+  intros A B C. induction a as [|x0 a IH]; intros b c x y z I; destruct b as [|y0 b]; destruct c as [|z0 c];
+    cbn [zip3] in I; try (destruct I; fail).
+  destruct I as [E|I]; [inversion E; subst; repeat split; left; reflexivity|].
+  destruct (IH _ _ _ _ _ I) as [I1 [I2 I3]]. repeat split; right; assumption.
+Qed.
+
+Lemma last_In : forall {A} (l : list A) d, l <> [] -> In (last l d) l.
+Proof.
+  intros A l d H. destruct (@exists_last _ l H) as [l' [x E]]. rewrite E, last_last.
+  apply in_or_app. right. left. reflexivity.
+Qed.
+
+(* the guard, unpacked *)
+Record msa_ok (m : msa) (n : nat) : Prop := {
+  mo_ids : length (m_ids m) = length (m_alm m);
+  mo_taxa : length (m_taxa m) = length (m_alm m);
+  mo_rows : m_alm m <> [];
+  mo_n : (1 <= n)%nat;
+  mo_alm : Forall (fun r => length r = n /\ Forall seg_ok r) (m_alm m);
+  mo_tax : Forall taxon_ok (m_taxa m);
+  mo_nz : Forall (fun i => i <> 0) (m_ids m);
+  mo_local : incr_fromb 0 (m_local m) = true /\ forallb (fun i => (i <? n)%nat) (m_local m) = true;
+  mo_swaps : swaps_okb 0 n (m_swaps m) = true;
+  mo_cons : m_cons m = None }.
+
+Lemma msa_okb_ok : forall m, msa_okb m = true -> msa_ok m (length (hd [] (m_alm m))).
+Proof.
+  intros m H. unfold msa_okb in H.
+  repeat (apply andb_true_iff in H; let H' := fresh "K" in destruct H as [H H']).
+  constructor.
+  - apply Nat.eqb_eq, H.
+  - apply Nat.eqb_eq, K8.
+  - apply nullb_nonnil, K7.
+  - apply Nat.leb_le, K6.
+  - apply Forall_forall. intros r I. rewrite forallb_forall in K5. specialize (K5 r I).
+    apply andb_true_iff in K5. destruct K5 as [L S]. split; [apply Nat.eqb_eq, L|].
+    apply Forall_forall. intros s Is. rewrite forallb_forall in S. apply seg_okb_ok, S, Is.
+  - apply Forall_forall. intros t I. rewrite forallb_forall in K4. apply taxon_okb_ok, K4, I.
+  - apply Forall_forall. intros i I. rewrite forallb_forall in K3. specialize (K3 i I).
+    apply negb_true_iff in K3. lia.
+  - split; assumption.
+  - exact K0.
+  - destruct (m_cons m); [discriminate K|reflexivity].
+Qed.
+
+Lemma msa_n_eq : forall m n, msa_ok m n -> msa_n m = n.
+Proof.
+  intros m n OK. unfold msa_n. rewrite zip3_length by (try apply (mo_ids _ _ OK); apply (mo_taxa _ _ OK)).
+  rewrite firstn_all.
+  pose proof (last_In (m_alm m) [] (mo_rows _ _ OK)) as I.
+  pose proof (mo_alm _ _ OK) as F. rewrite Forall_forall in F. destruct (F _ I) as [L _]. exact L.
+Qed.
+
+Lemma rows_ok_zip : forall m n, msa_ok m n -> Forall row_ok (zip3 (m_ids m) (m_taxa m) (m_alm m)).
+Proof.
+  intros m n OK. apply Forall_forall. intros [[id t] row] I. destruct (zip3_in _ _ _ _ _ _ I) as [I1 [I2 I3]].
+  pose proof (mo_nz _ _ OK) as F1. pose proof (mo_tax _ _ OK) as F2. pose proof (mo_alm _ _ OK) as F3.
+  rewrite Forall_forall in F1, F2, F3. destruct (F3 row I3) as [L S].
+  split; [apply F1, I1|]. split; [apply F2, I2|]. split; [|exact S].
+  cbn [snd]. pose proof (mo_n _ _ OK). destruct row; [cbn [length] in L; lia|discriminate].
+Qed.
+
+Lemma filter_comments : forall stamp rest, Forall (fun l => starts 35 l = true) stamp ->
+  filter (fun l => negb (starts 35 l)) (stamp ++ rest) = filter (fun l => negb (starts 35 l)) rest.
+Proof.
+  induction stamp as [|l r IH]; intros rest F; [reflexivity|].
+  inversion F as [|? ? Hl Hr]; subst. cbn [app filter]. rewrite Hl. cbn [negb]. apply IH, Hr.
+Qed.
+
+Lemma row_line_nocomment : forall w p, starts 35 (msa_row_of w p) = false.
+Proof.
+  intros w p. unfold msa_row_of, msa_row_line.
+  pose proof (show_int_nonempty (fst (fst p))) as NE.
+  destruct (show_int (fst (fst p))) as [|c r] eqn:E; [congruence|].
+  cbn [app starts].
+  assert (In c (show_int (fst (fst p)))) as I by (rewrite E; left; reflexivity).
+  destruct (show_int_chars _ _ I) as [->|D]; [reflexivity|]. unfold is_digit in D. lia.
+Qed.
+
+Lemma filter_rows : forall w rows,
+  filter (fun l => negb (starts 35 l)) (map (msa_row_of w) rows) = map (msa_row_of w) rows.
+Proof.
+  intros w rows. apply filter_all. apply forallb_forall. intros l I. apply in_map_iff in I.
+  destruct I as [p [<- _]]. rewrite row_line_nocomment. reflexivity.
+Qed.
+
+Lemma show_nat_notab : forall z, 0 <= z -> ~ In 9 (show_nat z).
+Proof. intros z H. apply digits_no; [apply show_nat_digits, H|lia]. Qed.
+
+Lemma upd_length : forall {A} (i : nat) (x : A) l, length (upd i x l) = length l.
+Proof.
+  intros A i x l. revert i. induction l as [|y l IH]; intros i; [destruct i; reflexivity|].
+  destruct i; cbn [upd length]; [reflexivity|rewrite IH; reflexivity].
+Qed.
+
+Lemma swap_cells_length : forall n swaps, length (swap_cells n swaps) = n.
+Proof.
+  intros n swaps. unfold swap_cells. generalize (repeat_length s_dot n). generalize (repeat s_dot n).
+  induction swaps as [|[[a b] c] r IH]; intros l L; [exact L|]. cbn [fold_left]. apply IH.
+  rewrite !upd_length. exact L.
+Qed.
+
+Lemma spec_cells_notab : forall swaps lo n, Forall (fun c : str => ~ In 9 c) (spec_cells lo n swaps).
+Proof.
+  induction swaps as [|[[a b] c] r IH]; intros lo n; cbn [spec_cells].
+  - apply Forall_forall. intros x I. apply repeat_spec in I. subst. intros [E|[]]; discriminate E.
+  - apply Forall_app. split.
+    + apply Forall_forall. intros x I. apply repeat_spec in I. subst. intros [E|[]]; discriminate E.
+    + repeat (constructor; [intros [E|[]]; discriminate E|]). apply IH.
+Qed.
+
+(* ------------------------------------------------------------------ *)
+(* ONE BLOCK: what _list2msa makes of the lines msa2str wrote *)
+Theorem msa_body_roundtrip : forall stamp m, msa_okb m = true -> Forall (fun l => starts 35 l = true) stamp ->
+  read_msa_body (msa_body stamp m) = Ok (expected_read m).
+Proof.
+  intros stamp m H FS. pose proof (msa_okb_ok m H) as OK. set (n := length (hd [] (m_alm m))) in *.
+  unfold read_msa_body, msa_lines, msa_body. rewrite (msa_n_eq m n OK). rewrite (mo_cons _ _ OK).
+  set (w := fmt_width (m_taxa m)).
+  set (rows := zip3 (m_ids m) (m_taxa m) (m_alm m)).
+  set (col := ann_line w s_COLUMNID (map (fun i => show_nat (Z.of_nat (S i))) (seq 0 n))).
+  assert (BODY : forall X : list str, match stamp ++ [35] :: X with [] => [[]] | _ :: _ => stamp ++ [35] :: X end = stamp ++ [35] :: X).
+  { intros X. destruct stamp; reflexivity. }
+  rewrite BODY. rewrite filter_comments by exact FS.
+  assert (COL : msa_cells col = s_zero :: s_COLUMNID :: map norm (map (fun i => show_nat (Z.of_nat (S i))) (seq 0 n))).
+  { unfold col. apply ann_cells; [reflexivity|discriminate| |  |].
+    - intros I. unfold s_COLUMNID in I. cbn [In] in I. repeat (destruct I as [I|I]; [discriminate I|]). exact I.
+    - pose proof (mo_n _ _ OK). destruct n; [lia|discriminate].
+    - apply Forall_forall. intros c I. apply in_map_iff in I. destruct I as [i [<- _]]. apply show_nat_notab. lia. }
+  assert (LOC : nullb (m_local m) = false ->
+          msa_cells (ann_line w s_LOCAL (local_cells n (m_local m))) = s_zero :: s_LOCAL :: map norm (local_cells n (m_local m))).
+  { intros _. apply ann_cells; [reflexivity|discriminate| | |].
+    - intros I. unfold s_LOCAL in I. cbn [In] in I. repeat (destruct I as [I|I]; [discriminate I|]). exact I.
+    - unfold local_cells. pose proof (mo_n _ _ OK). destruct n; [lia|discriminate].
+    - apply Forall_forall. intros c I. unfold local_cells in I. apply in_map_iff in I. destruct I as [i [<- _]].
+      destruct (existsb (Nat.eqb i) (m_local m)); intros [E|[]]; discriminate E. }
+  pose proof (swap_cells_length n (m_swaps m)) as SWL.
+  assert (SWC : Forall (fun c : str => ~ In 9 c) (swap_cells n (m_swaps m))).
+  { rewrite swap_cells_spec by apply (mo_swaps _ _ OK). apply spec_cells_notab. }
+  assert (SWP : nullb (m_swaps m) = false ->
+          msa_cells (ann_line w s_CROSSED (swap_cells n (m_swaps m))) = s_zero :: s_CROSSED :: map norm (swap_cells n (m_swaps m))).
+  { intros _. apply ann_cells; [reflexivity|discriminate| | |exact SWC].
+    - intros I. unfold s_CROSSED in I. cbn [In] in I. repeat (destruct I as [I|I]; [discriminate I|]). exact I.
+    - intros E. rewrite E in SWL. cbn [length] in SWL. pose proof (mo_n _ _ OK). lia. }
+  destruct (zip3_unzip (m_ids m) (m_taxa m) (m_alm m) (mo_ids _ _ OK) (mo_taxa _ _ OK)) as [U1 [U2 U3]].
+  pose proof (rows_ok_zip m n OK) as RO. fold rows in RO, U1, U2, U3.
+  assert (ROWS : forall a, r_ids a = [] -> r_taxa a = [] -> r_alm a = [] -> r_seqs a = [] -> r_cons a = None ->
+            list2msa (map msa_cells (map (msa_row_of w) rows)) a
+            = Ok (mk_msa_read (m_ids m) (m_taxa m) (m_alm m) (map degap (m_alm m)) (r_local a) (r_swaps a) None)).
+  { intros a E1 E2 E3 E4 E5. rewrite map_map. rewrite rows_fold by exact RO.
+    rewrite E1, E2, E3, E4, E5. cbn [app].
+    assert (map (fun p : Z * str * list str => degap (snd p)) rows = map degap (m_alm m)) as ->
+      by (rewrite <- U3, map_map; reflexivity).
+    rewrite U1, U2, U3. reflexivity. }
+  cbn [filter]. change (starts 35 [35]) with true. cbn [negb].
+  assert (NC : forall nm cells, starts 35 (ann_line w nm cells) = false) by reflexivity.
+  unfold col at 1. rewrite NC. cbn [negb]. fold col.
+  rewrite !filter_app. cbn [filter]. change (starts 35 [35]) with true. cbn [negb].
+  rewrite filter_rows.
+  unfold expected_read.
+  destruct (nullb (m_local m)) eqn:EL; destruct (nullb (m_swaps m)) eqn:ES; cbn [filter app map];
+    try rewrite NC; cbn [negb app map]; rewrite COL, list2msa_columnid.
+  - destruct (m_local m); [|discriminate EL]. destruct (m_swaps m); [|discriminate ES].
+    apply (ROWS msa_read0); reflexivity.
+  - destruct (m_local m); [|discriminate EL].
+    rewrite (SWP eq_refl), list2msa_crossed, swaps_roundtrip by apply (mo_swaps _ _ OK).
+    rewrite ROWS by reflexivity. reflexivity.
+  - destruct (m_swaps m); [|discriminate ES].
+    rewrite (LOC eq_refl), list2msa_local.
+    rewrite local_roundtrip by (destruct (mo_local _ _ OK); assumption).
+    rewrite ROWS by reflexivity. reflexivity.
+  - rewrite NC. cbn [negb app map].
+    rewrite (LOC eq_refl), list2msa_local.
+    rewrite local_roundtrip by (destruct (mo_local _ _ OK); assumption).
+    rewrite (SWP eq_refl), list2msa_crossed, swaps_roundtrip by apply (mo_swaps _ _ OK).
+    rewrite ROWS by reflexivity. reflexivity.
+Qed.
